@@ -71,7 +71,7 @@ func TestProp(t *testing.T) {
 			}
 		}
 		h := rt.Hash(strings.Join(c.Segs, "\x00"), fmt.Sprint(c.Cut), c.Mode, c.Cfg.SeedHex)
-		if f == nil && in.judged && in.expectErr == "" && (in.evaluated || in.depth >= 2) {
+		if (f == nil || s.Known(f.Signature)) && in.judged && in.expectErr == "" && (in.evaluated || in.depth >= 2) {
 			s.NonTrivial(h)
 			if len(strings.Join(c.Segs, "")) < 200 {
 				s.Sample(h, c)
@@ -89,7 +89,7 @@ func TestProp(t *testing.T) {
 		classify(s, c, in)
 		s.Class("kind:" + c.Kinds[0])
 		h := rt.Hash(strings.Join(c.Segs, "\x00"), fmt.Sprint(c.Cut), c.Mode, c.Cfg.SeedHex)
-		if f == nil && in.judged && (in.expectErr != "" || in.evaluated || in.depth >= 2) {
+		if (f == nil || s.Known(f.Signature)) && in.judged && (in.expectErr != "" || in.evaluated || in.depth >= 2) {
 			s.NonTrivial(h)
 			if len(strings.Join(c.Segs, "")) < 160 {
 				s.Sample(h, c)
